@@ -223,7 +223,8 @@ def cross_check():
         logging.getLogger(nm).setLevel(logging.CRITICAL)
     out = []
     for name, fn in (("read-only operations leave the chart equal to its twin", readonly_history), ("a parse does not depend on earlier parses or on the process", history_independence),
-                     ("section parsers on one-shot iterators", one_shot_history), ("concurrent parses equal serial parses", threads_history)):
+                     ("section parsers on one-shot iterators", one_shot_history), ("concurrent parses equal serial parses", threads_history),
+                     ("tick queries do not depend on earlier queries", query_history)):
         import time as _t
         t0 = _t.time()
         try:
@@ -233,6 +234,37 @@ def cross_check():
             continue
         out.append({"unit": "fx:history/" + name, "ran": True, "kind": "bounded: native history script against the real code", "seconds": round(_t.time() - t0, 2), "failing": f})
     return out
+
+
+def query_history():
+    """tick queries on a tempo map that has answered other queries before versus on a fresh one:
+    result or exception class must agree for every (tick, hint)"""
+    import chartparse.chart as cc
+    text = CHART_TEXTS[0]
+
+    def fresh():
+        return cc.Chart.from_file(io.StringIO(text)).sync_track.bpm_events
+
+    def outcome(be, tick, hint):
+        try:
+            return ("ok", be.timestamp_at_tick(tick, start_iteration_index=hint))
+        except Exception as e:
+            return ("raised", type(e).__name__)
+    used = fresh()
+    ticks = [0, 1, 399, 400, 401, 799, 800, 801, 5000]
+    for t in ticks:
+        outcome(used, t, 0)
+        try:
+            used.timestamp_at_tick_no_optimize_return(t)
+        except Exception:
+            pass
+    for t in ticks:
+        for h in (0, 1, 2, 3, 4):
+            a, b = outcome(used, t, h), outcome(fresh(), t, h)
+            if a != b:
+                return {"history": f"bpm_events answers ticks {ticks} with hint 0; then timestamp_at_tick({t}, start_iteration_index={h})",
+                        "observed": f"after the earlier queries: {a!r}; on a freshly parsed tempo map: {b!r}", "chart_text": text}
+    return None
 
 
 def replay(prop_hint, ob_name):
@@ -251,6 +283,9 @@ def replay(prop_hint, ob_name):
         if f:
             return True, f
         f = readonly_history()
+        if f:
+            return True, f
+        f = query_history()
         if f:
             return True, f
     except Exception as e:
